@@ -60,6 +60,14 @@ LifeFamC == [kp \in KP |-> { s \o l \o <<VerifyOp(TokFor(kp[1], h, sg, "3seg"))>
 \* (families, not their union: see ISpecFam in Interp.tla)
 
 \* non-vacuity on the reference: some unsigned token is accepted, some signed one too
+\* every algorithm pinned on a private key of every type that carries no alg attribute (what setkey admits is
+\* not the point here: whatever generate returns from a keyed builder carries a signature), under both providers
+CrossKeys == {OctKey(32, "a", NONE, NONE), OctKey(64, "a", NONE, NONE)}
+             \cup {AsymKey(n, 1, NONE, NONE) : n \in {"rsa2048a", "rsa3072a", "p256a", "p384a", "p521a", "k256a", "ed25519a", "ed448a"}}
+CrossFam == [k \in CrossKeys |->
+               { <<OpsOp(p), LoadOp(<<k>>), BNewOp, BSetKeyOp(a, 0), GenerateOp(0)>> : a \in RealAlgs, p \in {"openssl", "gnutls"} }
+               \cup { <<OpsOp(p), LoadOp(<<k>>), BNewOp, BSetCbOp(<<CbKey(0), CbAlg(a)>>), GenerateOp(0)>> : a \in RealAlgs, p \in {"openssl", "gnutls"} }]
+
 SomeUnsignedAccepted == ~(obs.k = "Verify" /\ obs.ref = "accept" /\ obs.pt.sigEmpty)
-MCSpec == ISpecP(InFam(CheckerFam) \/ script \in NoKeyScripts \/ script \in BuilderScripts \/ InFam(LifeFamB) \/ InFam(LifeFamC))
+MCSpec == ISpecP(InFam(CheckerFam) \/ script \in NoKeyScripts \/ script \in BuilderScripts \/ InFam(LifeFamB) \/ InFam(LifeFamC) \/ InFam(CrossFam))
 =============================================================================
